@@ -9,40 +9,249 @@ Fixpoint chain (prev : nat) (rows : list row) : Prop :=
   | r :: rs => (r_level r <= S prev)%nat /\ chain (r_level r) rs
   end.
 
-Lemma traverse_chain sh rows : forall prev tail out,
-  traverse sh prev rows tail = Ok out -> chain prev out.
+(* the level of the last row (prev when there is none) *)
+Fixpoint last_level (prev : nat) (rows : list row) : nat :=
+  match rows with [] => prev | r :: rs => last_level (r_level r) rs end.
+
+Lemma chain_app : forall a prev b, chain prev a -> chain (last_level prev a) b -> chain prev (a ++ b).
 Proof.
-  induction rows as [|r rs IH]; intros prev tail out H; cbn [traverse] in H.
-  - destruct tail; [discriminate|]. injection H as <-. exact I.
-  - destruct (negb (visible sh r)); [eapply IH; eauto|].
-    destruct (Nat.ltb (S prev) (r_level r)) eqn:L; [discriminate|].
-    destruct (traverse sh (r_level r) rs tail) as [rest|e] eqn:Tr; [|discriminate].
-    cbn [bind] in H. injection H as <-. cbn [chain]. split.
-    + apply Nat.ltb_ge in L. exact L.
-    + eapply IH; eauto.
+  induction a as [|r a IH]; intros prev b Ha Hb; [exact Hb|]. cbn [app chain last_level] in *.
+  destruct Ha as [H1 H2]. split; [exact H1|apply IH; assumption].
+Qed.
+Lemma last_level_app : forall a prev b, last_level prev (a ++ b) = last_level (last_level prev a) b.
+Proof. induction a as [|r a IH]; intros prev b; [reflexivity|]. cbn [app last_level]. apply IH. Qed.
+
+(* ---- what _traverse_tree prints, as a function of the rows alone: a row is dropped when it lies below the row hidden
+   last (whatever its own visibility), otherwise it is printed iff the filter admits it; a dropped-because-invisible row
+   becomes the row hidden last, a printed one clears that state ---- *)
+Fixpoint shown (sh : show_mode) (hidden : option nat) (rows : list row) : list row :=
+  match rows with
+  | [] => []
+  | r :: rs =>
+      if below_hidden hidden r then shown sh hidden rs
+      else if visible sh r then r :: shown sh None rs
+      else shown sh (Some (r_level r)) rs
+  end.
+(* hidden_level after the rows *)
+Fixpoint hid_after (sh : show_mode) (hidden : option nat) (rows : list row) : option nat :=
+  match rows with
+  | [] => hidden
+  | r :: rs =>
+      if below_hidden hidden r then hid_after sh hidden rs
+      else if visible sh r then hid_after sh None rs
+      else hid_after sh (Some (r_level r)) rs
+  end.
+
+Lemma shown_app sh : forall a h b, shown sh h (a ++ b) = shown sh h a ++ shown sh (hid_after sh h a) b.
+Proof.
+  induction a as [|r a IH]; intros h b; [reflexivity|]. cbn [app shown hid_after].
+  destruct (below_hidden h r); [apply IH|]. destruct (visible sh r); [cbn [app]; rewrite IH; reflexivity|apply IH].
+Qed.
+Lemma hid_after_app sh : forall a h b, hid_after sh h (a ++ b) = hid_after sh (hid_after sh h a) b.
+Proof.
+  induction a as [|r a IH]; intros h b; [reflexivity|]. cbn [app hid_after].
+  destruct (below_hidden h r); [apply IH|]. destruct (visible sh r); apply IH.
 Qed.
 
-Lemma traverse_visible sh rows : forall prev tail out,
-  traverse sh prev rows tail = Ok out -> Forall (fun r => visible sh r = true) out.
+(* every printed row is a row of the stream that the filter admits (the converse fails: see shown_forest) *)
+Lemma shown_In sh x : forall rows h, In x (shown sh h rows) -> In x rows /\ visible sh x = true.
 Proof.
-  induction rows as [|r rs IH]; intros prev tail out H; cbn [traverse] in H.
-  - destruct tail; [discriminate|]. injection H as <-. constructor.
-  - destruct (visible sh r) eqn:V; cbn [negb] in H; [|eapply IH; eauto].
-    destruct (Nat.ltb (S prev) (r_level r)); [discriminate|].
-    destruct (traverse sh (r_level r) rs tail) as [rest|e] eqn:Tr; [|discriminate].
-    cbn [bind] in H. injection H as <-. constructor; [exact V | eapply IH; eauto].
+  induction rows as [|r rs IH]; intros h H; [destruct H|]. cbn [shown] in H.
+  destruct (below_hidden h r); [destruct (IH _ H); split; [right|]; assumption|].
+  destruct (visible sh r) eqn:V; [|destruct (IH _ H); split; [right|]; assumption].
+  destruct H as [<-|H]; [split; [left; reflexivity|exact V]|destruct (IH _ H); split; [right|]; assumption].
+Qed.
+Lemma shown_visible sh rows h : Forall (fun r => visible sh r = true) (shown sh h rows).
+Proof. apply Forall_forall. intros x Hx. exact (proj2 (shown_In sh x rows h Hx)). Qed.
+
+(* rows all deeper than the hidden row are skipped, and the hidden row stays the same *)
+Lemma shown_deeper sh hl : forall rows, Forall (fun x => (hl < r_level x)%nat) rows ->
+  shown sh (Some hl) rows = [] /\ hid_after sh (Some hl) rows = Some hl.
+Proof.
+  induction 1 as [|r rs Hr Hrs IH]; [split; reflexivity|]. cbn [shown hid_after below_hidden].
+  replace (Nat.ltb hl (r_level r)) with true by (symmetry; apply Nat.ltb_lt; exact Hr). exact IH.
+Qed.
+
+(* a run that completes: the generator did not raise, the output is `shown` of the rows, and it is a chain *)
+Theorem traverse_shown sh rows : forall prev hidden tail out,
+  traverse sh prev hidden rows tail = Ok out -> tail = None /\ out = shown sh hidden rows /\ chain prev out.
+Proof.
+  induction rows as [|r rs IH]; intros prev hidden tail out H; cbn [traverse shown] in *.
+  - destruct tail; [discriminate|]. injection H as <-. split; [reflexivity|]. split; [reflexivity|exact I].
+  - destruct (below_hidden hidden r); [eapply IH; eauto|].
+    destruct (visible sh r); cbn [negb] in H; [|eapply IH; eauto].
+    destruct (Nat.ltb (S prev) (r_level r)) eqn:L; [discriminate|].
+    destruct (traverse sh (r_level r) None rs tail) as [rest|e] eqn:Tr; [|discriminate].
+    cbn [bind] in H. injection H as <-. destruct (IH _ _ _ _ Tr) as [A [B C]].
+    split; [exact A|]. split; [rewrite B; reflexivity|]. cbn [chain]. split; [apply Nat.ltb_ge in L; exact L|exact C].
+Qed.
+
+Lemma traverse_chain sh rows prev hidden tail out :
+  traverse sh prev hidden rows tail = Ok out -> chain prev out.
+Proof. intros H. exact (proj2 (proj2 (traverse_shown sh rows prev hidden tail out H))). Qed.
+
+Lemma traverse_visible sh rows prev hidden tail out :
+  traverse sh prev hidden rows tail = Ok out -> Forall (fun r => visible sh r = true) out.
+Proof. intros H. destruct (traverse_shown sh rows prev hidden tail out H) as [_ [-> _]]. apply shown_visible. Qed.
+
+(* _traverse_tree adds only its own ValueError to what the generator raised *)
+Lemma traverse_raise sh : forall rows prev hidden tail e,
+  traverse sh prev hidden rows tail = Raise e -> e = EValue \/ tail = Some e.
+Proof.
+  induction rows as [|r rs IH]; intros prev hidden tail e H; cbn [traverse] in H.
+  - destruct tail as [e'|]; [injection H as ->; right; reflexivity | discriminate H].
+  - destruct (below_hidden hidden r); [eapply IH; exact H|].
+    destruct (negb (visible sh r)); [eapply IH; exact H|].
+    destruct (Nat.ltb (S prev) (r_level r)); [injection H as <-; left; reflexivity|].
+    destruct (traverse sh (r_level r) None rs tail) as [rest|e'] eqn:Tr; cbn [bind] in H; [discriminate H|].
+    injection H as ->. eapply IH; exact Tr.
+Qed.
+
+(* ---- mode-independent well-formedness: on EVERY row stream that is a pre-order walk (each row at most one level below
+   its predecessor; p = the level of the row consumed last) _traverse_tree never raises its ValueError, whatever the filter
+   hides, and what it prints is again such a stream.  The state invariant: with nothing hidden the row printed last is at
+   least as deep as the row consumed last (they are the same row); otherwise the hidden row was at most one level below the
+   row printed last -- and only rows at its level or above are looked at. ---- *)
+Definition tinv (prev : nat) (hidden : option nat) (p : nat) : Prop :=
+  match hidden with None => (p <= prev)%nat | Some hl => (hl <= S prev)%nat end.
+
+Theorem traverse_preorder sh : forall rows p prev hidden tail, chain p rows -> tinv prev hidden p ->
+  traverse sh prev hidden rows tail = match tail with Some e => Raise e | None => Ok (shown sh hidden rows) end
+  /\ chain prev (shown sh hidden rows).
+Proof.
+  induction rows as [|r rs IH]; intros p prev hidden tail Hc Hi; cbn [traverse shown chain] in *.
+  - split; [destruct tail; reflexivity|exact I].
+  - destruct Hc as [Hr Hc]. destruct (below_hidden hidden r) eqn:B.
+    + apply (IH (r_level r)); [exact Hc|]. destruct hidden; [exact Hi|discriminate B].
+    + assert (Hlv : (r_level r <= S prev)%nat).
+      { destruct hidden as [hl|]; cbn [below_hidden tinv] in *; [apply Nat.ltb_ge in B|]; lia. }
+      destruct (visible sh r); cbn [negb].
+      * replace (Nat.ltb (S prev) (r_level r)) with false by (symmetry; apply Nat.ltb_ge; exact Hlv).
+        destruct (IH (r_level r) (r_level r) None tail Hc (le_n _)) as [A C]. rewrite A.
+        split; [destruct tail; reflexivity|]. cbn [chain]. split; [exact Hlv|exact C].
+      * apply (IH (r_level r)); [exact Hc|exact Hlv].
+Qed.
+
+Theorem traverse_all_preorder sh st r rs : fst st = r :: rs -> chain (r_level r) rs ->
+  traverse_all sh st = match snd st with Some e => Raise e | None => Ok (r :: shown sh None rs) end
+  /\ chain (r_level r) (shown sh None rs).
+Proof.
+  intros F Hc. unfold traverse_all. rewrite F.
+  destruct (traverse_preorder sh rs (r_level r) (r_level r) None (snd st) Hc (le_n _)) as [A C]. rewrite A.
+  split; [destruct (snd st); reflexivity|exact C].
 Qed.
 
 (* the tree handed to the printer: root first, then a chain *)
 Theorem traverse_all_wellformed sh st out :
   traverse_all sh st = Ok out ->
-  exists r rest rs, out = r :: rest /\ fst st = r :: rs /\ chain (r_level r) rest.
+  exists r rest rs, out = r :: rest /\ fst st = r :: rs /\ chain (r_level r) rest /\ rest = shown sh None rs /\ snd st = None.
 Proof.
   unfold traverse_all. destruct (fst st) as [|r rs] eqn:F.
   - destruct (snd st); discriminate.
-  - destruct (traverse sh (r_level r) rs (snd st)) as [rest|e] eqn:Tr; [|discriminate].
+  - destruct (traverse sh (r_level r) None rs (snd st)) as [rest|e] eqn:Tr; [|discriminate].
     cbn [bind]. intros H; injection H as <-. exists r, rest, rs. split; [reflexivity|]. split; [reflexivity|].
-    eapply traverse_chain; eauto.
+    destruct (traverse_shown _ _ _ _ _ _ Tr) as [A [B C]]. auto.
+Qed.
+
+(* ---- forests in pre-order (first child / next sibling): what the filter keeps is the forest with every subtree whose
+   root the filter hides cut off ---- *)
+Inductive forest := FNil | FTree (r : row) (kids rest : forest).
+Fixpoint flat (f : forest) : list row :=
+  match f with FNil => [] | FTree r k s => r :: flat k ++ flat s end.
+Fixpoint levelled (L : nat) (f : forest) : Prop :=
+  match f with FNil => True | FTree r k s => r_level r = L /\ levelled (S L) k /\ levelled L s end.
+Fixpoint prune (sh : show_mode) (f : forest) : forest :=
+  match f with
+  | FNil => FNil
+  | FTree r k s => if visible sh r then FTree r (prune sh k) (prune sh s) else prune sh s
+  end.
+(* x is a row of f that the filter admits together with every ancestor it has in f *)
+Fixpoint kept (sh : show_mode) (f : forest) (x : row) : Prop :=
+  match f with
+  | FNil => False
+  | FTree r k s => (visible sh r = true /\ (x = r \/ kept sh k x)) \/ kept sh s x
+  end.
+(* a fully safe row has only fully safe rows below it *)
+Fixpoint safe_closed (f : forest) : Prop :=
+  match f with
+  | FNil => True
+  | FTree r k s => (r_safe r = true -> Forall (fun x => r_safe x = true) (flat k)) /\ safe_closed k /\ safe_closed s
+  end.
+
+Lemma levelled_ge : forall f L, levelled L f -> Forall (fun x => (L <= r_level x)%nat) (flat f).
+Proof.
+  induction f as [|r k IHk s2 IHs]; intros L H; [constructor|]. destruct H as [Hl [Hk Hs]]. cbn [flat].
+  constructor; [lia|]. apply Forall_app. split; [|apply IHs; exact Hs].
+  eapply Forall_impl; [|apply (IHk _ Hk)]. intros x Hx. cbn beta in Hx. lia.
+Qed.
+
+Lemma levelled_chain : forall f L p, levelled L f -> (L <= S p)%nat ->
+  chain p (flat f) /\ (L <= S (last_level p (flat f)))%nat.
+Proof.
+  induction f as [|r k IHk s2 IHs]; intros L p H Hp; [split; [exact I|exact Hp]|]. destruct H as [Hl [Hk Hs]].
+  cbn [flat chain last_level]. rewrite Hl. destruct (IHk (S L) L Hk (le_n _)) as [K1 K2].
+  destruct (IHs L (last_level L (flat k)) Hs ltac:(lia)) as [S1 S2]. rewrite last_level_app.
+  split; [split; [exact Hp|apply chain_app; assumption]|exact S2].
+Qed.
+
+Lemma prune_levelled sh : forall f L, levelled L f -> levelled L (prune sh f).
+Proof.
+  induction f as [|r k IHk s2 IHs]; intros L H; [exact I|]. destruct H as [Hl [Hk Hs]]. cbn [prune].
+  destruct (visible sh r); [cbn [levelled]; auto|auto].
+Qed.
+
+Lemma kept_flat sh x : forall f, In x (flat (prune sh f)) <-> kept sh f x.
+Proof.
+  induction f as [|r k IHk s2 IHs]; [split; intros []|]. cbn [prune kept]. destruct (visible sh r) eqn:V.
+  - cbn [flat In]. rewrite in_app_iff, IHk, IHs. split.
+    + intros [<-|[H|H]]; [left; split; [reflexivity|left; reflexivity]|left; split; [reflexivity|right; exact H]|right; exact H].
+    + intros [[_ [->|H]]|H]; [left; reflexivity|right; left; exact H|right; right; exact H].
+  - rewrite IHs. split; [intros H; right; exact H|intros [[X _]|H]; [discriminate X|exact H]].
+Qed.
+
+(* the hidden level does not matter for rows at level L or above *)
+Definition loose (L : nat) (h : option nat) : Prop := match h with None => True | Some l => (L <= l)%nat end.
+
+Theorem shown_forest sh : forall f L h, levelled L f -> loose L h ->
+  shown sh h (flat f) = flat (prune sh f) /\ loose L (hid_after sh h (flat f)).
+Proof.
+  induction f as [|r k IHk s2 IHs]; intros L h H Hh; [split; [reflexivity|exact Hh]|]. destruct H as [Hl [Hk Hs]].
+  cbn [flat shown hid_after prune].
+  assert (B : below_hidden h r = false).
+  { destruct h as [l|]; [|reflexivity]. cbn [below_hidden loose] in *. apply Nat.ltb_ge. lia. }
+  rewrite B. destruct (visible sh r).
+  - rewrite shown_app, hid_after_app. destruct (IHk (S L) None Hk I) as [K1 K2].
+    assert (K3 : loose L (hid_after sh None (flat k))) by (destruct (hid_after sh None (flat k)); cbn [loose] in *; [lia|exact I]).
+    destruct (IHs L _ Hs K3) as [S1 S2]. rewrite K1, S1. split; [reflexivity|exact S2].
+  - rewrite shown_app, hid_after_app. rewrite Hl.
+    destruct (shown_deeper sh L (flat k)) as [D1 D2].
+    { eapply Forall_impl; [|apply (levelled_ge _ _ Hk)]. intros x Hx. cbn beta in Hx. lia. }
+    rewrite D1, D2. cbn [app]. apply (IHs L (Some L) Hs). cbn [loose]. lia.
+Qed.
+
+(* the three filters *)
+Lemma prune_all : forall f, prune ShowAll f = f.
+Proof. induction f as [|r k IHk s2 IHs]; [reflexivity|]. cbn [prune visible]. rewrite IHk, IHs. reflexivity. Qed.
+
+Lemma filter_none {A} (p : A -> bool) l : Forall (fun x => p x = false) l -> filter p l = [].
+Proof. induction 1 as [|x l Hx Hl IH]; [reflexivity|]. cbn [filter]. rewrite Hx. exact IH. Qed.
+
+(* show = untrusted: a hidden row is fully safe, so is everything below it: nothing the filter admits is lost *)
+Lemma prune_untrusted : forall f, safe_closed f ->
+  flat (prune ShowUntrusted f) = filter (fun x => negb (r_safe x)) (flat f).
+Proof.
+  induction f as [|r k IHk s2 IHs]; intros H; [reflexivity|]. destruct H as [Hc [Hk Hs]].
+  cbn [prune visible flat filter]. rewrite filter_app. destruct (r_safe r) eqn:Sf; cbn [negb].
+  - rewrite (filter_none _ (flat k)); [apply IHs; exact Hs|].
+    eapply Forall_impl; [|exact (Hc eq_refl)]. intros x Hx. cbn beta in Hx. rewrite Hx. reflexivity.
+  - cbn [flat]. rewrite IHk, IHs by assumption. reflexivity.
+Qed.
+
+(* a filter that admits every row of the forest keeps all of it *)
+Lemma prune_id sh : forall f, Forall (fun x => visible sh x = true) (flat f) -> prune sh f = f.
+Proof.
+  induction f as [|r k IHk s2 IHs]; intros H; [reflexivity|]. cbn [flat] in H. inversion H as [|? ? Hr Hrest]; subst.
+  apply Forall_app in Hrest. destruct Hrest as [Hk Hs]. cbn [prune]. rewrite Hr, IHk, IHs by assumption. reflexivity.
 Qed.
 
 Lemma s_app_no_rows a b : fst a = [] -> fst b = [] -> fst (s_app a b) = [].
